@@ -30,6 +30,8 @@ def run(ctx):
                 ch = bs.children[0]
                 res.samples.append({"body": b.path, "child": ch["full"], "value": loc.fmt(loc.canon(v, ch["value"])),
                                     "location": loc.fmt(loc.canon(v, ch["loc"]))})
+    import controls
+    controls.run(ctx, res, "C04", lambda crate, b, v, bs: loc.c04_rules(v, bs, (v.b.lname(2),) if v.b.lname(2) else ("location",), v)[0])
     # C04.PTR: push_key / push_index build the right variant with prev = self
     res.add("C04.PTR", *ptr_rules(ctx))
     res.analysed.update({"child_calls": nchild, "report_sites": nsite})
